@@ -56,6 +56,33 @@ def rule_raw_reader_escapes(ctx):
                          % (item.cls.replace("builtins.", ""), item.origin[2], reader.replace("cutplace.", ""), _chain_text(item)))
 
 
+def rule_rejected_rows_are_data_errors(ctx):
+    """O6.6: "one data error per rejected row": whatever a cell holds, validate_row ends in acceptance or in a DataError - an
+    exception of another kind (decimal.InvalidOperation for NaN, ...) is not collected by 'yield', not skipped by 'continue',
+    and ends the pass with the counters short.  The hooks of the abstract bases raise NotImplementedError; the maps types
+    are resolved through never hold the bases (O20.2)."""
+    from .c10 import _chain_text, analysis
+
+    model = ctx.model
+    escape, _ = analysis(model)
+    ctx.res.minimum("O6.6", 1)
+    entry = "cutplace.validio.BaseValidator.validate_row"
+    info = model.func(entry)
+    items = escape.escapes(entry)
+    bad = [item for item in items if not escape.lattice.is_subclass(item.cls, "cutplace.errors.DataError")
+           and not (item.cls == "builtins.NotImplementedError" and ".Abstract" in item.origin[0])]
+    what = "validate_row raises nothing but data errors"
+    if len(items) < 10:
+        raise AnalysisError("only %d raise sites reach validate_row (expected the field formats' and checks')" % len(items))
+    if not bad:
+        ctx.res.ok("O6.6", what, True, {"raise sites": len(items), "classes": sorted({item.cls for item in items})})
+    for item in bad:
+        ctx.res.fail("O6.6", what, "%s:O6.6:%s:%s" % (item.origin[0].replace("cutplace.", ""), item.cls, " ".join(item.origin[2].split())[:80]),
+                     "%s:%d (%s)" % (info.module.relpath, item.origin[1], item.origin[0].replace("cutplace.", "")),
+                     "%s raised at %s leaves validate_row: the row is neither accepted nor reported as a data error in any mode; chain: %s"
+                     % (item.cls.replace("builtins.", ""), item.origin[2], _chain_text(item)))
+
+
 def rule_csv_fault_conversion(ctx):
     from .c10 import rule_delimited_error_helper
 
@@ -113,4 +140,4 @@ def rule_ods_container_faults(ctx):
     rule_container_faults(ctx, "O6.5")
 
 
-RULES = [rule_modes, rule_copies, rule_raw_reader_escapes, rule_csv_fault_conversion, rule_strict_csv_reader, rule_fixed_reader_reports_malformed_streams, rule_ods_container_faults, rule_module_state]
+RULES = [rule_rejected_rows_are_data_errors, rule_modes, rule_copies, rule_raw_reader_escapes, rule_csv_fault_conversion, rule_strict_csv_reader, rule_fixed_reader_reports_malformed_streams, rule_ods_container_faults, rule_module_state]
